@@ -35,6 +35,9 @@ structure Fail where
   reason : String
   /-- `true`: the Rust code panics here (index out of bounds, `unwrap`), it does not return an error -/
   panic : Bool := false
+  /-- text scanned before the failure whose newlines are entered into the line table before the
+      location is computed (an unterminated raw string) -/
+  scanned : List Char := []
 deriving Repr, DecidableEq
 
 structure ScanErr where
@@ -239,7 +242,7 @@ def scanLitString (cs : List Char) : Except Fail (List Char) :=
     | .error e => .error e
     | .ok (text, terminated) =>
       if terminated then .ok (quote :: text)
-      else .error { off := 1 + text.length, reason := "string literal not terminated" }
+      else .error { off := 1 + text.length, reason := "string literal not terminated", scanned := quote :: text }
 
 /-! ### numbers -/
 
@@ -424,7 +427,9 @@ def nextToken (s : Scanner) : Except SErr (Option (Nat × Token)) × Scanner :=
     else
       let current := s.pos
       match scanToken s.rest with
-      | .error f => (.error (if f.panic then .panic f.reason else s.errorAt (s.pos + f.off) f.reason), s)
+      | .error f =>
+        let s := { s with lines := s.lines ++ (newlineStarts s.pos f.scanned).toArray }
+        (.error (if f.panic then .panic f.reason else s.errorAt (s.pos + f.off) f.reason), s)
       | .ok (tok, charCount) =>
         let s := s.addTokenCrossLine tok
         let s := { s with pos := s.pos + charCount }
